@@ -316,11 +316,11 @@ def check_programs(progs):
         rp = {"engine": "matrices", "leaf": p["leaf"], "ops": p["ops"]}
         # the program is executed from a fresh leaf object and (programs with operations only) from a leaf that
         # was already USED: its lazily computed attributes filled, so that derived objects may reuse them
-        for used in ((False, True) if p["ops"] else (False,)):
+        for used in ((False, "fwd", "rev") if p["ops"] else (False,)):
             try:
                 leaf = build_leaf(p["leaf"])
                 if used:
-                    touch(leaf)
+                    touch(leaf, reverse=(used == "rev"))
                 obj = apply_ops(leaf, p["ops"])
             except Exception as e:  # noqa: BLE001
                 last = p["ops"][-1][0] if p["ops"] else "construct"
@@ -340,9 +340,11 @@ def check_programs(progs):
     return viol, n
 
 
-def touch(obj):
-    """Read every lazily computed attribute an object offers (fills its caches)."""
-    for a in ("array", "T", "inv", "sqrt", "eigval", "eigvec", "diagonal", "log_abs_det"):
+def touch(obj, reverse=False):
+    """Read every lazily computed attribute an object offers (fills its caches), in one of two orders (what a
+    derived object finds cached depends on what was computed first)."""
+    order = ("array", "T", "inv", "sqrt", "eigval", "eigvec", "diagonal", "log_abs_det")
+    for a in (order[::-1] if reverse else order):
         try:
             v = getattr(obj, a)
             if a in ("inv", "sqrt", "T"):
